@@ -34,7 +34,7 @@ REQUIRED_LABELS = ["compat==rule", "symmetric", "weights-not-in-pc", "bond-order
 
 
 def bounds(tier):
-    return {"ids": "unbounded integers >= 0", "orders": [1, 2, 3, 4, 7], "filter list length": 2 if tier == "quick" else 3,
+    return {"ids": "unbounded integers >= 0", "orders": [1, 2, 3, 4, 7], "filter list length": 2 if tier == "quick" else 4,
             "prefix length": "2 (single descriptor), 1 (pairs)", "id digits (text level)": "2 (single), 1 quick / 2 thorough (pairs)", "weight list length": "0, 1 or 2 entries"}
 
 
@@ -49,7 +49,7 @@ def cases(tier):
             for pb in (0, 1):
                 out.append({"name": f"text-pair/{wf}/p{pa}{pb}", "kind": "text", "wf": wf, "single": False,
                             "plen_a": pa, "plen_b": pb, "nid": 1 if tier == "quick" else 2})
-    nmax = 2 if tier == "quick" else 3
+    nmax = 2 if tier == "quick" else 4
     for n in range(1, nmax + 1):
         for bondkind in ("none", "state"):
             out.append({"name": f"filter/n{n}/{bondkind}", "kind": "filter", "n": n, "bond": bondkind})
